@@ -256,6 +256,15 @@ func runC13case(t *vf.T, c c13case) {
 		t.Violate(sig+" file-missing-after-success", fmt.Sprintf("%d of %d shard files exist after a successful, fully consumed run", complete, nshard))
 		return
 	}
+	if faulty && !failed1 && c.Position != "under-head" && complete != nshard {
+		// a run that survived the fault (the failed attempt was retried) has completed: every shard is
+		// cached, as after any completed run
+		t.Violate(sig+" file-missing-after-success-despite-fault", fmt.Sprintf("%d of %d shard files exist after a run that completed successfully although a file operation failed (%s); ops: %v", complete, nshard, c.FailOp, tailStrs(oplog, 12)))
+		return
+	}
+	if faulty && !failed1 {
+		t.Count("faulted_runs_that_completed", 1)
+	}
 	if !cached.Placed && complete == nshard {
 		var union []row
 		for s := 0; s < nshard; s++ {
